@@ -61,7 +61,9 @@ Animate(w, T, dt) ==
       w1 == [w EXCEPT !.an[T].st = s3,
                       !.an[T].pos = IF s3 # "Ended" THEN p + dt ELSE p,
                       !.an[T].runEnded = IF ends THEN @ + 1 ELSE @,
-                      !.cid[T] = IF evalNow THEN here ELSE @]
+                      \* on the frame of the Waiting -> Playing transition the property leaves the component
+                      \* open (evaluated or not): <<"any", frame>>
+                      !.cid[T] = IF evalNow THEN here ELSE IF s3 = "Playing" /\ ~wasPlaying THEN <<"any", w.frame>> ELSE @]
   IN IF changed THEN [w1 EXCEPT !.unread = Append(@, <<T, s3>>), !.out = Append(@, <<T, s3>>)] ELSE w1
 
 \* ---------------- select_animation::<K, A> ----------------------------------------
